@@ -261,9 +261,11 @@ class Engine(ExprEval, NumpyModel, NumpyFuncs):
     def find_contract(self, fi: FuncInfo, bound: dict, self_obj=None):
         """Pick the contract variant that statically matches the actual arguments (None if there is none)."""
         cands = list(contracts_for(fi.key))
-        if self_obj is not None:
-            # interface contracts registered on an ancestor's method apply to calls through a subclass-typed object
-            pass
+        live = [c for c in cands if not c.inline]
+        if live and not any({p for p in c.params if "." not in p} <= set(bound) for c in live):
+            # every contract of the callee names a parameter the function no longer has: its signature changed, the contracts (and the
+            # ghost hints they carry) say nothing about this code; inlining the body instead would silently drop those hints
+            raise Unsupported(f"the contracts of {fi.qualname} do not fit its parameter list {sorted(bound)} (signature changed)")
         for exact in (True, False):
             best, best_score = None, -1
             for c in cands:
